@@ -19,14 +19,12 @@ def route(case):
     if case.startswith("W "):
         return "radius"
     return "aaa_race" if case.startswith("Sr ") else "aaa"
-# Model variants v<s><o><l><p> (fix_sent, fix_order, fix_l2stop, fix_prune).  "repaired" = v1111; "head" = v1010 = /repo HEAD.
-# Two findings are open: o (provider calls sent from unordered goroutines; no patch) and p (orphan prune without Stop;
-# fixes/C09_stop_on_prune.patch).  Everything else is fixed in /repo (7e92d8e, e0693a6, d70a5ae, 9b87063, d95fed1): a
-# regression to any of those matches no variant and is reported as a VIOLATION.
-VARIANTS = ["repaired", "v1011", "v1110", "head"]
-FLAGS = {"repaired": "", "v1011": "o", "v1110": "p", "head": "op"}
-SIG = {"o": "start-stop-interim-sent-from-unordered-goroutines",
-       "p": "pruneOrphanedAcctEntries-drops-accounting-without-stop"}
+# Model variants: "repaired" = /repo HEAD plus ordered per-session delivery of the provider calls (the one finding still
+# open, no patch); "head" = /repo HEAD.  Everything else is fixed in /repo (7e92d8e, e0693a6, d70a5ae, 9b87063, d95fed1,
+# 7faf7f9): a regression to any of those matches neither variant and is reported as a VIOLATION.
+VARIANTS = ["repaired", "head"]
+FLAGS = {"repaired": "", "head": "o"}
+SIG = {"o": "start-stop-interim-sent-from-unordered-goroutines"}
 RULE = ("One case = one history of the real AAA component with 1-4 sessions (two of them share an interim bucket; 6% of "
         "the histories have 5-7 sessions crowded in one bucket, with releases between ticks); "
         "IPoE, PPPoE and l2gw payloads; l2gw sessions read the l2gw stats segment - access and handoff entry - on a tick, "
